@@ -6,8 +6,10 @@ import Percival.Driver.Dsmon
 
 `Model.DsStep.Out.ans` (`Proofs/DsStep.lean`) is the typed form of: print the model's output with
 `Driver/Ds.render`, keep the part before ` | `, cut it into tokens as `Driver/Loop.loopMon` does, read them with
-`Driver/Dsmon.parseAns`.  String functions do not reduce in the kernel, so this is checked by evaluation (`#guard`,
-at every build) on an output of every shape rather than proved.
+`Driver/Dsmon.parseAns`.  The token level is a theorem (`Proofs/DsAns.lean`, `C12.monitor_reads_printed_answer`:
+`parseAns (l1Toks o) = o.ans` for every `o`, and the L1 part splits back into `l1Toks o` at the spaces); the tests
+below additionally go through the whole printed line — the cut at ` | ` and `String.splitOn " "` of `Driver/Loop`, which
+are not part of the theorem — by evaluation (`#guard`, at every build) on an output of every shape.
 -/
 namespace Percival.KAT.DsAns
 open Percival.Model Percival.Model.DsStep Percival.Spec.DS Percival.Spec.DSMon Percival.Driver
